@@ -299,6 +299,29 @@ def run_spec(arg):
                     out["result"] = "violation"
                     out["cex"] = r
                     break
+        ops = [it for it in spec[1] if isinstance(it, tuple)]
+        if (out["result"] == "holds" and ("o", "**") in ops and not info["idx"] and all(k == "int" for (_, k, _) in lv.vars)
+                and not any(it == ("o", "/") or it[0] in ("f", "pi") for it in ops)):
+            # "+, -, *, ** on integers stay integers": integer powers whose exact value lies between 2**53 and 2**63 (no double
+            # holds them), base and exponent at every pair of adjacent leaf positions; compared exactly (validation runs)
+            n = len(lv.vars)
+            for (b, e) in ((3, 34), (7, 19), (5, 25)):
+                for pos in range(max(1, n - 1)):
+                    vals = [1] * n
+                    vals[pos] = b
+                    if pos + 1 < n:
+                        vals[pos + 1] = e
+                    r = concrete_check(spec, spaced, vals, w)
+                    if r == "skip":
+                        continue
+                    out["validated"] = out.get("validated", 0) + 1
+                    if isinstance(r, dict):
+                        r["what"] = "native run of an integer power beyond 2**53 differs from the exact reference: " + str(r.get("what") or "value")
+                        out["result"] = "violation"
+                        out["cex"] = r
+                        break
+                if out["result"] != "holds":
+                    break
         if out["result"] == "violation":
             c = out["cex"]
             c.setdefault("expr", etext)
